@@ -417,6 +417,9 @@ pub fn step_adm(sim: &mut Sim, ctx: &mut Ctx, adm: &AdmSwarm) -> Option<Tx> {
             let bank = bank?;
             if bank.emissions_mint == Pubkey::default() {
                 let flags = if ctx.rng.chance(2, 3) { ctx.rng.below(4) } else { flag_word(ctx.rng) };
+                if flags & !0b11 != 0 {
+                    sim.stats.fault("emissions_flags_with_foreign_bits_submitted");
+                }
                 Tx::one(
                     "emissions_admin",
                     ix::setup_emissions(&b.keys, g.admins.emissions, mint, tp, funding, flags, ctx.rng.log_amount(9), ctx.rng.log_amount(12)),
@@ -425,6 +428,9 @@ pub fn step_adm(sim: &mut Sim, ctx: &mut Ctx, adm: &AdmSwarm) -> Option<Tx> {
                 let flags = some!(ctx.rng, 2, 3, if ctx.rng.chance(1, 2) { ctx.rng.below(4) } else { flag_word(ctx.rng) });
                 let rate = some!(ctx.rng, 1, 2, ctx.rng.log_amount(9));
                 let add = some!(ctx.rng, 1, 3, ctx.rng.log_amount(10));
+                if flags.map(|f| f & !0b11 != 0).unwrap_or(false) {
+                    sim.stats.fault("emissions_flags_with_foreign_bits_submitted");
+                }
                 Tx::one(
                     "emissions_admin",
                     ix::update_emissions(&b.keys, g.admins.emissions, bank.emissions_mint, tp, funding, flags, rate, add),
